@@ -6,6 +6,7 @@ CONSTANTS
   Encodings = {"parquet"}
   MaxCrashes = 1
   WithDrop = TRUE
+  ClearOffEarly = FALSE
 VIEW View
 INVARIANT FinalEqualsUninterrupted
 INVARIANT EachGroupOnce
